@@ -607,6 +607,61 @@ func runBounds(c *core.Ctx) {
 			}
 		})
 	}
+	// a constant index into a list decoded from a request body (m.Manifests[0] after json.Unmarshal(raw, &m)): the list is as
+	// long as the client made it — `"manifests": []` decodes to a list that is not nil and has no element
+	c.SetTags("other")
+	for _, fn := range c.P.ModFuncs {
+		if strings.HasPrefix(core.FuncPkgPath(fn), c.P.Module+"/cmd") || len(fn.Blocks) == 0 {
+			continue
+		}
+		decoded := map[ssa.Value]bool{}
+		an.Calls(fn, func(call ssa.CallInstruction) {
+			if !(an.IsFunc(call, "encoding/json", "Unmarshal") || an.IsMethod(call, "encoding/json", "Decoder", "Decode")) {
+				return
+			}
+			args := call.Common().Args
+			if len(args) == 0 {
+				return
+			}
+			dst := an.Strip(args[len(args)-1])
+			if mi, ok := dst.(*ssa.MakeInterface); ok {
+				dst = an.Strip(mi.X)
+			}
+			if al, ok := dst.(*ssa.Alloc); ok {
+				decoded[al] = true
+			}
+		})
+		if len(decoded) == 0 {
+			continue
+		}
+		b := &boundsCtx{c: c, fn: fn}
+		n := 0
+		name := kn(c.P.FuncName(fn))
+		an.Instrs(fn, func(in ssa.Instruction) {
+			x, ok := in.(*ssa.IndexAddr)
+			if !ok {
+				return
+			}
+			if _, isC := x.Index.(*ssa.Const); !isC {
+				return
+			}
+			if _, isSlice := x.X.Type().Underlying().(*types.Slice); !isSlice {
+				return
+			}
+			root, pth := accessPath(an.Strip(x.X))
+			if root == nil || len(pth) == 0 || !decoded[root] {
+				return
+			}
+			n++
+			total++
+			key := fmt.Sprintf("decoded-index:%s#%d", name, n)
+			if b.prove(x.Index, nil, x.X, -1, x.Block(), nil, 0) {
+				c.Pass(key, x.Pos(), "constant index into a decoded list proven below its length")
+			} else {
+				c.Fail(key, x.Pos(), "the element %s[%s] of a list decoded from the request body is taken at %s and the dominating conditions do not prove the list that long (a test against nil does not: an empty JSON array decodes to an empty list that is not nil): such a body panics the handler", strings.Join(pth, "."), x.Index.Name(), c.P.Pos(x.Pos()))
+			}
+		})
+	}
 	if total == 0 {
 		c.Unresolved("request-integers", "no request-derived slice or index expression found")
 	}
